@@ -263,10 +263,10 @@ def builtin(it, name):
         "min": b_minmax("min"), "max": b_minmax("max"), "sorted": b_sorted, "next": b_next,
         "isinstance": b_isinstance, "hasattr": b_hasattr, "getattr": b_getattr,
         "enumerate": lambda x, start=0: _ai().GenList(enumerate(it.iterate(x), start)),
-        "zip": lambda *a: _ai().GenList(zip(*[list(it.iterate(x)) for x in a])),
-        "range": range, "slice": slice, "iter": lambda x: iter(it.iterate(x)),
+        "zip": lambda *a: _ai().GenList(zip(*[iter(it.iterate(x)) for x in a])),            # (stops at the shortest without draining the others)
+        "range": range, "slice": slice, "iter": lambda x: iter(it.iterate(x)), "object": (lambda: object()),
         "filter": lambda f, xs: [x for x in it.iterate(xs) if (_ai().truth(x) if f is None else _ai().truth(it.call(f, [x], {})))],
-        "map": lambda f, *xs: _ai().GenList(it.call(f, list(a), {}) for a in zip(*[list(it.iterate(x)) for x in xs])),
+        "map": lambda f, *xs: _ai().GenList(it.call(f, list(a), {}) for a in zip(*[iter(it.iterate(x)) for x in xs])),
         "any": lambda xs: any(_ai().truth(x) for x in it.iterate(xs)),
         "all": lambda xs: all(_ai().truth(x) for x in it.iterate(xs)),
         "list": lambda x=(): list(it.iterate(x)), "tuple": lambda x=(): tuple(it.iterate(x)),
@@ -306,6 +306,33 @@ class Matrix:
     def equal(self, other):
         return (isinstance(other, Matrix) and len(self.cols) == len(other.cols) and all(len(a) == len(b) for a, b in zip(self.cols, other.cols))
                 and all(same(x, y) for a, b in zip(self.cols, other.cols) for x, y in zip(a, b)))
+
+
+_OPERATOR_FUNCS = {"add": ("bin", ast.Add()), "sub": ("bin", ast.Sub()), "mul": ("bin", ast.Mult()), "truediv": ("bin", ast.Div()), "floordiv": ("bin", ast.FloorDiv()),
+                   "mod": ("bin", ast.Mod()), "pow": ("bin", ast.Pow()), "and_": ("bin", ast.BitAnd()), "or_": ("bin", ast.BitOr()), "xor": ("bin", ast.BitXor()),
+                   "iadd": ("bin", ast.Add()), "ior": ("bin", ast.BitOr()), "iand": ("bin", ast.BitAnd()),
+                   "lt": ("cmp", ast.Lt()), "le": ("cmp", ast.LtE()), "gt": ("cmp", ast.Gt()), "ge": ("cmp", ast.GtE()), "eq": ("cmp", ast.Eq()), "ne": ("cmp", ast.NotEq()),
+                   "is_": ("cmp", ast.Is()), "is_not": ("cmp", ast.IsNot()), "contains": ("cmp_rev_in", None),
+                   "not_": ("not", None), "neg": ("neg", None), "getitem": ("getitem", None), "itemgetter": ("itemgetter", None), "attrgetter": ("attrgetter", None)}
+
+
+class NamedTupleType:
+    """the class collections.namedtuple(name, fields) returns: calling it makes a row with those fields"""
+
+    def __init__(self, name, fields):
+        self.__name__ = name
+        self._fields = tuple(fields)
+
+    def __call__(self, *a, **k):
+        if len(a) + len(k) != len(self._fields) or any(x not in self._fields for x in k):
+            raise Raised("TypeError", f"{self.__name__}() takes {len(self._fields)} fields")
+        return Row(dict(zip(self._fields, a), **k), list(self._fields))
+
+    def _make(self, vals):
+        return self(*list(vals))
+
+    def __repr__(self):
+        return f"<namedtuple {self.__name__}{self._fields}>"
 
 
 class MaskIdx:
@@ -785,6 +812,10 @@ def load_subscript(it, obj, k):
             if any(not -d.n <= i < d.n for i in k.v):
                 raise Raised("IndexError", "positional indexers are out-of-bounds")
             k = [i % d.n for i in k.v]                       # positional take; negative positions count from the end
+        if isinstance(k, MaskIdx):
+            if obj.name == "loc" and d.index != "range":
+                raise Raised("IndexMisalignment", "row positions (np.flatnonzero / np.nonzero of a mask) used as index labels in `.loc[rows]` of a table whose index is not known to be 0..n-1")
+            k = k.mask                                      # .iloc[<positions where the mask holds>]: the same rows as the mask selects, in table order
         if isinstance(k, Vec):
             return df_select(d, k)
         if obj.name == "loc" and isinstance(k, slice) and d.exact and d.labels is not None and k.step is None and \
@@ -893,6 +924,19 @@ def load_subscript(it, obj, k):
             r.exact = True
             if obj.labels is not None and len(obj.labels) == len(obj.v):
                 r.labels = [l for l, m in zip(obj.labels, k.v) if m]
+            return r
+        if isinstance(k, tuple) and len(k) == 2 and getattr(obj, "ncols", None) and isinstance(k[1], int) and not isinstance(k[1], bool) and -obj.ncols <= k[1] < obj.ncols:
+            # a 2-D array (rows of `ncols` values): one column, or one cell
+            if isinstance(k[0], slice) and k[0] == slice(None, None, None):
+                r = Vec([row[k[1]] for row in obj.v])
+                r.exact = obj.exact
+                return r
+            if isinstance(k[0], int) and not isinstance(k[0], bool):
+                return obj.v[k[0]][k[1]]
+        if isinstance(k, Vec) and k.exact and k.v and all(isinstance(i, int) and not isinstance(i, bool) for i in k.v) and not (obj.aligned or obj.fresh) \
+                and all(-len(obj.v) <= i < len(obj.v) for i in k.v):
+            r = Vec([obj.v[i] for i in k.v])              # ndarray[<integer array>]: the elements at those positions, in that order
+            r.exact = obj.exact
             return r
         if isinstance(k, Vec):
             return _maskload(obj, k)
@@ -1114,6 +1158,13 @@ def _store_subscript(it, obj, k, v, aug=False):
                 obj.v = [(v.v[v.labels.index(l)] if l in v.labels else None) if m else ov for m, ov, l in zip(k.v, obj.v, obj.labels)]
             else:
                 raise Raised("ValueError", f"NumPy boolean array indexing assignment cannot assign {len(v.v)} input values to the {sum(k.v)} output values where the mask is true")
+        elif isinstance(k, Vec) and k.exact and all(isinstance(i, int) and not isinstance(i, bool) for i in k.v) and not (obj.aligned or obj.fresh) \
+                and not (len(k.v) == len(obj.v) and k.v and all(isinstance(i, bool) for i in k.v)):
+            # ndarray[<integer array>] = values: scattered to those positions (a repeated position keeps the last value)
+            if any(not -len(obj.v) <= i < len(obj.v) for i in k.v):
+                raise Raised("IndexError", "index out of bounds in an integer-array store")
+            for i, x in zip(k.v, bcast(v, len(k.v))):
+                obj.v[i] = x
         elif isinstance(k, Vec):
             newv = bcast(v, len(obj.v))
             obj.v = [nv if m is True else ov for m, ov, nv in zip(k.v, obj.v, newv)]
@@ -1226,6 +1277,23 @@ def value_attr(it, obj, attr):
                         return Closure(m.node, {}, m.mod, m.qn, self_obj=slf)
             raise Undecided(f"super().{attr}")
         if obj._d.get("__class__"):
+            cname = obj._d["__class__"]
+            if cname in it.prog.classes:
+                fm = it.prog.find_method(cname, attr)
+                if fm is not None and "property" in fm.decorators:
+                    return it.call_function(fm.mod, fm.node, [obj], {}, qn=fm.qn)
+                if fm is None:
+                    # a class-level attribute (a constant shared by the instances, or the default of an annotated field)
+                    for c in it.prog.mro(cname):
+                        ci = it.prog.classes.get(c)
+                        if ci is None:
+                            continue
+                        for st in ci.node.body:
+                            if isinstance(st, ast.Assign) and any(isinstance(t, ast.Name) and t.id == attr for t in st.targets):
+                                return it.ev(st.value, {"__mod__": ci.mod})
+                            if isinstance(st, ast.AnnAssign) and isinstance(st.target, ast.Name) and st.target.id == attr and st.value is not None:
+                                return it.ev(st.value, {"__mod__": ci.mod})
+                    raise Raised("AttributeError", f"{cname!r} object has no attribute {attr!r}")
             return BoundMethod(obj, attr)
         raise Raised("AttributeError", attr)
     if isinstance(obj, dict):
@@ -1465,6 +1533,23 @@ def vec_method(it, obj, name, args, kw):
         return Vec(obj.v, fresh=True)          # a new 0..n-1 index
     if name in ("copy", "to_numpy", "tolist", "reset_index", "ravel", "flatten", "squeeze", "to_list"):
         return Vec(obj.v) if name != "tolist" else list(obj.v)
+    if name == "reshape" and not (obj.aligned or obj.fresh) and len(args[0] if len(args) == 1 and isinstance(args[0], (tuple, list)) else args) == 2:
+        # a table of rows: np.array(<list of equal-length tuples>).reshape(n, m) / a flat literal array cut into rows of m
+        n_, m_ = args[0] if len(args) == 1 and isinstance(args[0], (tuple, list)) else args
+        if isinstance(m_, int) and not isinstance(m_, bool) and m_ > 0:
+            if obj.v and all(isinstance(r_, (tuple, list)) and len(r_) == m_ for r_ in obj.v):
+                rows_ = [tuple(r_) for r_ in obj.v]
+            elif obj.exact and not any(isinstance(r_, (tuple, list)) for r_ in obj.v) and len(obj.v) % m_ == 0:
+                rows_ = [tuple(obj.v[i:i + m_]) for i in range(0, len(obj.v), m_)]
+            else:
+                rows_ = None
+            if rows_ is not None and (n_ == -1 or (isinstance(n_, int) and n_ == len(rows_)) or (isinstance(n_, NRows) and n_.n == len(rows_))):
+                r = Vec(rows_)
+                r.exact, r.ncols = obj.exact, m_
+                return r
+            if rows_ is not None and isinstance(n_, int):
+                raise Raised("ValueError", f"cannot reshape array of size {len(rows_) * m_} into shape ({n_},{m_})")
+        raise Undecided(f"reshape to {(n_, m_)!r}")
     if name == "reshape" and not (obj.aligned or obj.fresh):
         shape = args[0] if len(args) == 1 and isinstance(args[0], (tuple, list)) else args
         if len(shape) == 1 and (shape[0] == -1 or (isinstance(shape[0], int) and not isinstance(shape[0], bool) and shape[0] == len(obj.v))
@@ -2323,11 +2408,55 @@ def ext_call(it, dotted, args, kw):
         return collections.defaultdict(lambda: it.call(f, [], {}))
     if name == "collections.namedtuple":
         tname, fields = args[0], args[1]
-        fields = fields.split() if isinstance(fields, str) else list(fields)
-        return lambda *a, **k: Row(dict(zip(fields, a), **k), fields)
+        fields = fields.replace(",", " ").split() if isinstance(fields, str) else list(fields)
+        return NamedTupleType(tname, fields)
     if name == "itertools.count" and len(args) <= 2 and not kw and all(isinstance(a, int) and not isinstance(a, bool) for a in args):
         import itertools
         return itertools.count(*args)                     # consumed lazily by the interpreter's loops (bounded by MAX_LOOP)
+    if name == "functools.reduce" and len(args) in (2, 3) and not kw:
+        items = it.iterate(args[1])
+        items = iter(items)
+        if len(args) == 3:
+            acc = args[2]
+        else:
+            try:
+                acc = next(items)
+            except StopIteration:
+                raise Raised("TypeError", "reduce() of empty iterable with no initial value")
+        for x in items:
+            acc = it.call(args[0], [acc, x], {})
+        return acc
+    if name.startswith("operator.") and name[9:] in _OPERATOR_FUNCS and not kw:
+        kind, node = _OPERATOR_FUNCS[name[9:]]
+        if kind == "bin" and len(args) == 2:
+            return ai.binop(node, args[0], args[1])
+        if kind == "cmp" and len(args) == 2:
+            return ai.compare(node, args[0], args[1])
+        if kind == "cmp_rev_in" and len(args) == 2:
+            return ai.compare(ast.In(), args[1], args[0])
+        if kind == "not" and len(args) == 1:
+            return not ai.truth(args[0])
+        if kind == "neg" and len(args) == 1:
+            return ai.binop(ast.Sub(), 0, args[0])
+        if kind == "getitem" and len(args) == 2:
+            return load_subscript(it, args[0], args[1])
+        if kind == "itemgetter" and len(args) >= 1:
+            keys = list(args)
+            return (lambda x: load_subscript(it, x, keys[0])) if len(keys) == 1 else (lambda x: tuple(load_subscript(it, x, k_) for k_ in keys))
+        if kind == "attrgetter" and len(args) >= 1 and all(isinstance(a_, str) and "." not in a_ for a_ in args):
+            names = list(args)
+            return (lambda x: it.attribute(x, names[0])) if len(names) == 1 else (lambda x: tuple(it.attribute(x, n_) for n_ in names))
+    if name == "itertools.compress" and len(args) == 2 and not kw:
+        data, sel = it.iterate(args[0]), it.iterate(args[1])
+        return _ai().GenList(d for d, s_ in zip(data, sel) if ai.truth(s_))
+    if name == "itertools.chain.from_iterable" and len(args) == 1 and not kw:
+        return (x for part in it.iterate(args[0]) for x in it.iterate(part))         # lazy, like the original
+    if name == "itertools.repeat" and len(args) in (1, 2) and not kw:
+        import itertools
+        return itertools.repeat(*args) if len(args) == 1 or isinstance(args[1], int) else (_ for _ in ()).throw(Undecided("itertools.repeat count"))
+    if name == "itertools.tee" and len(args) in (1, 2) and not kw:
+        vals = list(it.iterate(args[0]))
+        return tuple(_ai().GenList(vals) for _ in range(args[1] if len(args) == 2 else 2))
     if name in ("itertools.chain",):
         out = []
         for a in args:
